@@ -618,11 +618,107 @@ def r_reduce_positions(c):
             f"API-made reduction over a leading axis is reported unknown ({why})")
 
 
+def r_canonical_subscript(c):
+    """the canonical broadcast subscript the raiser compares operands with
+    (utils.get_indexing_expression) must be the subscript the array API writes: the
+    index variable `_k` on every axis where operand and result agree, the constant 0
+    exactly where they differ (the operand's unit axis is broadcast).  A producer that
+    writes 0 for every unit axis of the operand -- broadcast or not -- still computes
+    the same values, but unary operations, reductions and the recognisers that build
+    their subscripts themselves then disagree with it and the raiser answers
+    'unknown' for API-made arrays with a unit axis."""
+    m = c.model
+    from pta import symrun
+    fd = m.func("pytato.utils.get_indexing_expression")
+    where = m.loc(m.module_of(fd), fd)
+    nf = m.normal(fd)
+    rows = None          # [(cases, produced expression text)]
+    dims = None
+    for n in ast.walk(nf):
+        gens = None
+        if isinstance(n, ast.For) and "zip(" in ast.unparse(n.iter):
+            tgt, gens = n.target, "loop"
+        elif isinstance(n, (ast.ListComp, ast.GeneratorExp)) \
+                and "zip(" in ast.unparse(n.generators[0].iter):
+            tgt, gens = n.generators[0].target, "comp"
+        if gens is None:
+            continue
+        pair = [t for t in ast.walk(tgt) if isinstance(t, ast.Tuple)
+                and len(t.elts) == 2 and all(isinstance(e, ast.Name) for e in t.elts)]
+        if not pair:
+            continue
+        dims = {e.id for e in pair[-1].elts}
+        if gens == "loop":
+            tbl = symrun.table(n.body, lambda t: None)
+            rows = []
+            for cs, ev in tbl.items():
+                app = [e for e in ev if e[0] == "call" and e[1].endswith(".append")
+                       and len(e[2]) == 1]
+                if len(app) != 1 or any(e[0] in ("exit", "opaque") for e in ev):
+                    rows = None
+                    break
+                rows.append((dict(cs), app[0][2][0]))
+        else:
+            if len(n.generators) != 1 or n.generators[0].ifs:
+                continue
+            tbl = symrun.table([ast.Expr(value=n.elt)], lambda t: None)
+            rows = []
+            for cs, ev in tbl.items():
+                if len(ev) != 1:
+                    rows = None
+                    break
+                e = ev[0]
+                rows.append((dict(cs), e[1] if e[0] == "expr"
+                             else f"{e[1]}({', '.join(e[2])})"))
+        if rows is not None:
+            break
+    if not rows or dims is None:
+        raise AnalysisError("anchor vanished: per-axis decision (index variable or 0) in "
+                            "get_indexing_expression")
+    a, b = sorted(dims)
+    eq_keys = {f"are_shape_components_equal({a}, {b})", f"are_shape_components_equal({b}, {a})"}
+    import re
+    n_const = n_var = 0
+    for cs, val in rows:
+        eq = [v for k, v in cs.items() if k in eq_keys]
+        mentions = {d for d in dims for k in cs if re.search(r"\b" + d + r"\b", k)}
+        is_const = val == "0"
+        is_var = re.search(r"\bVariable\(", val) is not None
+        if not (is_const or is_var):
+            raise AnalysisError(f"get_indexing_expression produces `{val}`: neither the "
+                                "constant 0 nor an index variable")
+        n_const += is_const
+        n_var += is_var
+        want = not is_const     # index variable <=> the two lengths agree
+        if eq:
+            ok = all(v == want for v in eq)
+        elif is_var and cs:
+            continue             # (an operand length other than 1 must agree anyway)
+        elif mentions != dims:
+            ok = False           # decided without comparing the two lengths at all
+        else:
+            raise AnalysisError("get_indexing_expression: cannot decide whether the case "
+                                f"{sorted(cs.items())} means 'operand and result length agree'")
+        c.check(ok, "R19-PATTERN", "utils.get_indexing_expression",
+                f"{'constant-0' if is_const else 'index-variable'}-iff-lengths-"
+                f"{'differ' if is_const else 'agree'}:{sorted(cs.items())}", where,
+                f"in the case {sorted(cs.items())} the canonical broadcast subscript is "
+                f"`{val}` although that case does not say the operand's and the result's "
+                "axis lengths " + ("differ" if is_const else "agree") + ": the subscript the "
+                "raiser compares with is no longer the one unary operations, reductions and "
+                "hand-lowered nodes write (x[_0, _1] for a (1, n) operand of a (1, n) result), "
+                "so API-made arrays with a unit axis are reported unknown")
+    if not (n_const and n_var):
+        raise AnalysisError("get_indexing_expression: expected a case producing 0 and a case "
+                            "producing an index variable")
+
+
 SPEC = Spec(
     prop="C19",
-    rules=[r_arity, r_order, r_cascade, r_tables, r_producer, r_patterns, r_intclass, r_reduce_positions],
+    rules=[r_arity, r_order, r_cascade, r_tables, r_producer, r_patterns, r_intclass, r_reduce_positions,
+           r_canonical_subscript],
     floors={"R19-ARITY": 7, "R19-ORDER": 4, "R19-CASCADE": 4, "R19-TABLES": 60,
-            "R19-PRODUCER": 8, "R19-PATTERN": 11},
+            "R19-PRODUCER": 8, "R19-PATTERN": 13},
     explanation=(
         "R19-ARITY: every construction of a HighLevelOp dataclass binds exactly its "
         "fields; a starred operand tuple must have its length pinned down on every "
@@ -643,7 +739,7 @@ SPEC = Spec(
         "recognisers see the un-cast expression; operands are recognised only "
         "through their exact broadcast subscript in a lambda whose shape equals the "
         "operands' broadcast shape. "
-        "R19-PATTERN also: the recognisers never look through a TypeCast; on the case table of one iteration of the per-subscript loop: the counter of kept axes never moves on a reduced axis, a kept axis ends in `return False` unless its name is `_<counter>` AND its length agrees, and in exactly that case the counter advances by one; integer tests on reduction bounds use INT_CLASSES."),
+        "R19-PATTERN also: the recognisers never look through a TypeCast; on the case table of one iteration of the per-subscript loop: the counter of kept axes never moves on a reduced axis, a kept axis ends in `return False` unless its name is `_<counter>` AND its length agrees, and in exactly that case the counter advances by one; integer tests on reduction bounds use INT_CLASSES; the canonical broadcast subscript (utils.get_indexing_expression), tabulated by case: the constant 0 exactly in the cases that say operand and result length differ, the index variable exactly where they agree."),
     not_decided=(
         "That applying the recognised operation with NumPy reproduces the pointwise "
         "value; near-miss rejection for arbitrary hand-built expressions (subscript "
